@@ -2,7 +2,7 @@
    format of the C04 / C05 / C08 correspondence cases.  Objects are addressed
    by their path from the root (list of child indices) in the current tree. *)
 From Coq Require Import ZArith List Bool Arith.
-From BT Require Import Model.RTree Model.TreeSpec Model.TreeRun Model.Persist.
+From BT Require Import Model.RTree Model.TreeSpec Model.TreeRun Model.Persist Model.PersistSpec.
 Import ListNotations.
 Open Scope Z_scope.
 
@@ -77,6 +77,8 @@ Definition step_ok (vs isC : bool) (ml mi : nat) (w : world) (s : pstep) : world
     let t1 := t_tree st1 in
     let ok :=
         out_eqb o1 o &&
+        (* sanity of the footprint statement (C04/C08) on this very step *)
+        footprint_ok (p_stored (w_p w)) (t_tree st0) t1 (t_events st1) &&
         match ids_at t1 reg, ids_at t1 reads with
         | Some r, Some rd =>
           set_eqb r (in_tree t1 (p_changed p1)) &&
@@ -94,7 +96,12 @@ Definition step_ok (vs isC : bool) (ml mi : nat) (w : world) (s : pstep) : world
       let ok :=
           kvl_eqb (map kv_of (load_items Z fuel s1 root_id)) descent &&
           kvl_eqb (map kv_of (reader_iter Z (S (length s1)) s1 root_id)) chain &&
-          set_eqb sp (in_tree t (p_stored p1)) in
+          set_eqb sp (in_tree t (p_stored p1)) &&
+          (* sanity of the commit / reader statements (C04) on this very commit *)
+          (negb (no_embed_below_b true (p_stored (w_p w)) t) ||
+           (current_b t (p_stored p1) s1 && all_stored_b t (p_stored p1) &&
+            kvl_eqb (map kv_of (load_items Z fuel s1 root_id)) (map kv_of (contents Z t)) &&
+            kvl_eqb (map kv_of (reader_iter Z (S (length s1)) s1 root_id)) (map kv_of (contents Z t)))) in
       (mkW (w_st w) p1 s1 t (p_stored p1), ok)
     | _, _ => (w, false)
     end
